@@ -4,21 +4,56 @@ import Asn1Verif.Front.Resolve
   Front end — totality of the resolver model.
 
   `ResolveScope::try_resolve` walks the module once (structural recursion over the types); the
-  only unbounded recursion of the real code is the import chase of `value_reference` /
-  `definition`, which has no visited set.  The mirror gives the chase `scope.length + 1` steps and
-  answers the pseudo error `fuel` when they are used up (= the real code recurses for ever).
+  only other recursion of the real code is the import chase of `value_reference` / `definition`,
+  which follows at most `scope.len()` imports (repaired code; before, it had no bound and a
+  cyclic import of an undefined name overflowed the stack).  The mirror of the chase is a
+  structural recursion on that bound and has no budget of its own.
 
-  `tryResolve_post`: if no chase of the scope runs out of budget, resolving does not either —
-  the chase is the ONLY source of non-termination.  `chase_noSelfImport`: with the one-module
-  scope of `Model::try_resolve` the chase cannot run out unless the module imports from itself.
+  `chaseTotal`: every chase of every scope comes back.  `tryResolve_post`: resolving never
+  answers the pseudo error `fuel` — for every scope, hence for `Model::try_resolve`
+  (`tryResolve_ne_fuel`) and `MultiModuleResolver::try_resolve_all` (`tryResolveAll_ne_fuel`),
+  without any hypothesis on the imports.
 -/
 namespace Asn1Verif.Front.Syn
 open Except
 
-/-- no chase in this scope exhausts its budget -/
+/-- no chase in this scope fails -/
 structure ChaseTotal (sc : Scope) : Prop where
   value : ∀ n, Post (sc.valueReference n) (fun _ => True)
   defn : ∀ n, Post (sc.definition n) (fun _ => True)
+
+theorem valueReference_post (S : List UModule) (n : String) :
+    ∀ (k : Nat) (m : UModule), Post (valueReference k m S n) (fun _ => True) := by
+  intro k
+  induction k with
+  | zero => intro m; exact Post.ok trivial
+  | succ k ih =>
+    intro m
+    unfold valueReference
+    split
+    · exact Post.ok trivial
+    · split
+      · exact ih _
+      · exact Post.ok trivial
+
+theorem definition_post (S : List UModule) (n : String) :
+    ∀ (k : Nat) (m : UModule), Post (definition k m S n) (fun _ => True) := by
+  intro k
+  induction k with
+  | zero => intro m; exact Post.ok trivial
+  | succ k ih =>
+    intro m
+    unfold definition
+    split
+    · exact Post.ok trivial
+    · split
+      · exact ih _
+      · exact Post.ok trivial
+
+/-- **every chase of every scope comes back** (no hypothesis on the imports) -/
+theorem chaseTotal (sc : Scope) : ChaseTotal sc :=
+  ⟨fun n => valueReference_post sc.scope n _ sc.model,
+   fun n => definition_post sc.scope n _ sc.model⟩
 
 section
 set_option linter.unusedSectionVars false
@@ -59,9 +94,7 @@ theorem resolveDefault_post (ty : RTy) (d : UConst) :
   split
   · exact Post.ok trivial
   · split
-    · have h := resolveTypeRef_post sc hc ‹String›
-      split
-      · rename_i heq; rw [heq] at h; exact absurd rfl h
+    · split
       · post_auto_with [resolveConst_post sc hc _]
       · exact resolveConst_post sc hc _
     · exact resolveConst_post sc hc _
@@ -141,53 +174,33 @@ theorem resolveDefinitions_post (l : List UDefinition) :
     unfold Scope.resolveDefinitions
     post_auto_with [resolveTy_post sc hc _, ih]
 
-/-- **the chase is the only source of non-termination** of `ResolveScope::try_resolve` -/
+/-- `ResolveScope::try_resolve` does not fail with the pseudo error when no chase does -/
 theorem tryResolve_post : Post sc.tryResolve (fun _ => True) := by
   unfold Scope.tryResolve
   post_auto_with [resolveValueRefs_post sc hc _, resolveDefinitions_post sc hc _]
 
 end
 
-/-! ### the one-module scope of `Model::try_resolve` -/
+/-- **`ResolveScope::try_resolve` is total**: a resolved model or one of the three error classes
+    of `resolve::Error`, for every module and every scope -/
+theorem Scope.tryResolve_ne_fuel (sc : Scope) : sc.tryResolve ≠ .error .fuel :=
+  (tryResolve_post sc (chaseTotal sc)).ne_fuel
 
-/-- the import `imp` of `m` designates `m` itself (by object identifier or by name) -/
-def Import.designates (imp : Import) (m : UModule) : Bool :=
-  (m.oid.isSome && m.oid == imp.fromOid) || m.name == imp.«from»
+/-- `Model::try_resolve` (the scope is the module itself) -/
+theorem tryResolve_ne_fuel (m : UModule) : tryResolve m ≠ .error .fuel :=
+  Scope.tryResolve_ne_fuel ⟨m, [m]⟩
 
-/-- no import of the module designates the module itself -/
-def NoSelfImport (m : UModule) : Prop := ∀ imp ∈ m.imports, imp.designates m = false
+theorem resolveAllAux_post (scope : List UModule) :
+    ∀ l : List UModule, Post (resolveAllAux scope l) (fun _ => True) := by
+  intro l
+  induction l with
+  | nil => exact Post.ok trivial
+  | cons m rest ih =>
+    unfold resolveAllAux
+    post_auto_with [tryResolve_post ⟨m, scope⟩ (chaseTotal _), ih]
 
-instance (m : UModule) : Decidable (NoSelfImport m) :=
-  inferInstanceAs (Decidable (∀ imp ∈ m.imports, _))
-
-theorem modelWithImportedItem_self (m : UModule) (h : NoSelfImport m) (item : String) :
-    modelWithImportedItem m [m] item = none := by
-  unfold modelWithImportedItem
-  cases hf : m.imports.find? (fun i => i.what.any (· == item)) with
-  | none => rfl
-  | some imp =>
-    have hmem : imp ∈ m.imports := List.mem_of_find?_eq_some hf
-    have := h imp hmem
-    simp only [Import.designates] at this
-    simp [List.find?, this]
-
-theorem chase_noSelfImport (m : UModule) (h : NoSelfImport m) : ChaseTotal ⟨m, [m]⟩ := by
-  constructor
-  · intro n
-    show Post (valueReference 2 m [m] n) _
-    unfold valueReference
-    split
-    · exact Post.ok trivial
-    · rw [modelWithImportedItem_self m h]; exact Post.ok trivial
-  · intro n
-    show Post (definition 2 m [m] n) _
-    unfold definition
-    split
-    · exact Post.ok trivial
-    · rw [modelWithImportedItem_self m h]; exact Post.ok trivial
-
-/-- `Model::try_resolve` terminates for every module that does not import from itself -/
-theorem tryResolve_ne_fuel (m : UModule) (h : NoSelfImport m) : tryResolve m ≠ .error .fuel :=
-  (tryResolve_post ⟨m, [m]⟩ (chase_noSelfImport m h)).ne_fuel
+/-- `MultiModuleResolver::try_resolve_all` -/
+theorem tryResolveAll_ne_fuel (models : List UModule) : tryResolveAll models ≠ .error .fuel :=
+  (resolveAllAux_post models models).ne_fuel
 
 end Asn1Verif.Front.Syn
